@@ -303,6 +303,20 @@ def check_c07(tier, seed):
         ck.cov['functions_encoded'] = list(ck.cov.get('functions_encoded', [])) + ['run_clock_error_bound_poller (one iteration over arbitrary loop-carried state): PHC term of the messages']
     except EngineError as e:
         ck.inconclusive.append('PHC term of the poller messages: %s' % e)
+    # the bound that is PUBLISHED for a synchronised report is the bound extracted from that report (plus its PHC term), whatever the
+    # updater published before: no history of earlier reports makes the record carry a different value (C08's pairing clause)
+    if not ck.violations:
+        try:
+            from . import daemon_updater
+            sub = daemon_updater.run_check('C08', tier, seed, owner='C07', only_clauses=['bound and as_of are those of the latest synchronised report'])
+            for key, desc, path in sub.violations:
+                ck.violations.append(('published:' + key, 'the bound published for a synchronised report is not the one derived from that report: ' + desc, path))
+            ck.inconclusive += ['published bound (updater): ' + i for i in sub.inconclusive]
+            for k_ in ('obligations', 'discharged', 'queries', 'evaluations', 'distinct_nontrivial'):
+                ck.cov[k_] = ck.cov.get(k_, 0) + sub.cov.get(k_, 0)
+            ck.cov['functions_encoded'] = list(ck.cov.get('functions_encoded', [])) + ['ShmUpdater::process_clock_update over short histories: bound of the published record']
+        except EngineError as e:
+            ck.inconclusive.append('published bound (updater): %s' % e)
     ck.cov['counterexamples_replayed'], ck.cov['counterexamples_confirmed'] = stats
     tv = validate(ck, prog, tm, outs, ex, seed, 40 if tier == 'quick' else 300)
     ck.cov['traces_validated_against_impl'] = tv
@@ -498,6 +512,14 @@ def check_c10(tier, seed, owner=None):
         ck.cov['functions_encoded'] = list(ck.cov.get('functions_encoded', [])) + ['ShmUpdater::process_clock_update / process_missing_clock_update / write_clock_error_bound and the status FSM (histories of <= %d steps ending in a report)' % Hs]
     except EngineError as e:
         ck.inconclusive.append('status after a report (updater): %s' % e)
+    # every report chronyd gives REACHES the classifier: the poller hands a report on as a report whatever its leap status / stratum
+    # (a report withheld in the poller is published as "no answer", i.e. with a class the classifier never assigned)
+    try:
+        from .daemon_poller import poller_table
+        poller_table(ck, prog, mir_wall, tier, seed, only_kind=True)
+        ck.cov['functions_encoded'] = list(ck.cov.get('functions_encoded', [])) + ['run_clock_error_bound_poller (one iteration): kind of the message for every report content']
+    except EngineError as e:
+        ck.inconclusive.append('reports reach the classifier (poller): %s' % e)
     ck.cov['bounds'] = {'leap_status': 'all 65536 values', 'update_interval_s': 'any finite double in [-2^40, 2^40] (zero, sub-second and negative included; for a negative interval the threshold is 0: every reference time older than 1 ns is stale)',
                         'reference_time_age': 'any, both signs (ref_time and now as integer ns in [0, 2^62))'}
     return ck.finish()
